@@ -11,13 +11,17 @@ Definition C15_holds (skip : bool) (m : msg) (o : obs) : Prop :=
      h ++ b ++ t = full /\ exists p, h = p ++ crlf ++ crlf) /\
   (forall r, ob_reparse o = Some r -> option_map canon r = Some (canon m)) /\
   (skip = true -> ob_records o = 0%nat) /\
-  ob_err o = false /\
+  (ob_err o = true -> ob_src_failed o = true) /\
   (forall snap ref, ob_startline o = Some (snap, ref) -> snap = ref).
 
 Lemma c15_ok_iff skip m o : c15_ok skip m o = true <-> C15_holds skip m o.
 Proof.
   unfold c15_ok, C15_holds, forwarded_ok, sections_ok, reparse_ok, skip_ok, startline_ok.
-  rewrite !andb_true_iff, msg_eqb_eq, negb_true_iff.
+  rewrite !andb_true_iff, msg_eqb_eq.
+  assert (He : (negb (ob_err o) || ob_src_failed o)%bool = true <->
+               (ob_err o = true -> ob_src_failed o = true)).
+  { destruct (ob_err o), (ob_src_failed o); cbn; split; intros H; try reflexivity; try discriminate;
+      try (intros; discriminate). now specialize (H eq_refl). }
   assert (Hs : match ob_sections o with
                | Some (h, b, t, full) => bytes_eqb (h ++ b ++ t) full && ends_with (crlf ++ crlf) h
                | None => true
@@ -54,14 +58,14 @@ Proof.
       + intros H a' b' E. injection E as <- <-. exact H.
       + intros H. now apply H.
     - split; [discriminate | reflexivity]. }
-  rewrite Hs, Hr, Hk, Hl. tauto.
+  rewrite Hs, Hr, Hk, Hl, He. tauto.
 Qed.
 
 (* what the model itself produces satisfies the property (the re-parse
    clause is theorem [snapshot_parseable]; it is not repeated here) *)
 Definition model_obs (lg : logger) (skip : bool) (m : msg) : obs :=
   mkObs (fst (run_logger lg skip m)) true (model_sections lg m) None
-        (List.length (snd (run_logger lg skip m))) false None.
+        (List.length (snd (run_logger lg skip m))) false false None.
 
 Lemma model_sections_partition lg m h b t full :
   model_sections lg m = Some (h, b, t, full) ->
@@ -82,7 +86,7 @@ Proof.
   cbn. split; [split; [now apply forwarded_unchanged | reflexivity]|].
   split; [intros h b t full; apply model_sections_partition|].
   split; [discriminate|]. split; [intros ->; now rewrite skip_means_unrecorded|].
-  split; [reflexivity | discriminate].
+  split; [discriminate | discriminate].
 Qed.
 
 (* ---------------- logger errors ---------------- *)
@@ -108,6 +112,13 @@ Lemma skipped_never_errors legacy lg cls m : logger_errors_gen legacy lg true cl
 Proof.
   unfold logger_errors_gen. destruct lg; try reflexivity; cbn [negb andb]; rewrite ?andb_false_r; reflexivity.
 Qed.
+
+Lemma marbl_never_reads_body skip m : reads_body LMarbl skip m = false.
+Proof. reflexivity. Qed.
+
+Lemma skipped_logger_never_reads_body lg m :
+  (forall o, lg <> LSnap o) -> reads_body lg true m = false.
+Proof. intros H. destruct lg; try reflexivity. now destruct (H o). Qed.
 
 (* ---------------- witnesses ---------------- *)
 
